@@ -359,7 +359,9 @@ pub fn emit_program(descs: &[(Ty, Vec<u16>)]) -> String {
     // access must follow the type's identity, not its name
     let mut local = String::new();
     for (k, (t, _)) in descs.iter().enumerate().take(3) {
-        let other = reads(t).first().cloned().or_else(|| writes(t).first().cloned()).unwrap_or(k);
+        // the same tuple shape in every block, so that only the identity of `Local` differs
+        let _ = t;
+        let other = 47usize;
         let payload = ["u64", "u32", "(u8, u8)"][k % 3];
         local.push_str(&format!(
             "    {{\n        #[derive(Default)]\n        struct Local({payload});\n        type TL<'a> = (Read<'a, Local>, Write<'a, R<{other}>>);\n        let want_r = vec![ResourceId::new::<Local>()];\n        let want_w = vec![ResourceId::new::<R<{other}>>()];\n        rep.types += 1;\n        if <TL as SystemData>::reads() != want_r || <TL as SystemData>::writes() != want_w {{\n            rep.failures.push((\"Local{k}\".to_string(), \"{{\\\"Tuple\\\":[{{\\\"Read\\\":0}}]}}\".to_string(), \"a tuple over the block-local resource type `Local` (same type_name as a sibling block's type) reports another type's resources\".to_string()));\n        }}\n        let mut world = World::empty();\n        <TL as SystemData>::setup(&mut world);\n        if !world.has_value::<Local>() {{\n            rep.failures.push((\"Local{k}\".to_string(), \"{{\\\"Tuple\\\":[{{\\\"Read\\\":0}}]}}\".to_string(), \"setup of a tuple over a block-local resource type did not create it\".to_string()));\n        }}\n    }}\n",
